@@ -369,3 +369,10 @@ type Driver func(c *Ctx) int
 
 var Drivers = map[string]Driver{}
 var ChildModes = map[string]func(argfile string){}
+
+func firstN(s []string, n int) []string {
+	if len(s) > n {
+		return s[:n]
+	}
+	return s
+}
